@@ -249,57 +249,50 @@ def rule_isal_w(ctx, P, r):
     if not sites:
         raise AnalysisBroken('anchor vanished: isa_l_common_init does not generate the encoding matrix')
     site = sites[0]
-    F = Facts(P, g, site.bb)
-    wexp = sorted({x for p, a, b in F.facts for x in (a, b) if re.search(r'\.w$', x) or re.search(r'\.w (srem|urem|and) ', x)})
-    mult8 = any(p == 'eq' and ((re.match(r'^\(\*.+\.w srem 8\)$', a) and b == '0') or (re.match(r'^\(\*.+\.w srem 8\)$', b) and a == '0')
-                               or (re.match(r'^\(7 and \*.+\.w\)$', a) and b == '0')) for p, a, b in F.facts)
-    # enumerated form: w == 8 || w == 16 ... shows up as no single dominating fact; accept the modulo form or a constant store
-    wstores = []
-    for i in g.insts():
-        if i.op == 'store':
-            root, steps = access_path(P, g, i.ops[1])
-            fl = fields_in_path(steps)
-            if fl and fl[-1][1] == 'w' and fl[-1][0] == 'isa_l_descriptor':
-                wstores.append(i)
-    if not wstores:
-        raise AnalysisBroken('anchor vanished: isa_l_common_init does not store the descriptor word size')
-    const_w = all(const_int(g, s.ops[0]) is not None and const_int(g, s.ops[0]) % 8 == 0 and const_int(g, s.ops[0]) >= 8 for s in wstores)
-    # positivity: explicit lower bound, or the `w <= 0 -> default` normalisation stored before w is copied
-    pos = False
-    for x in wexp:
-        lo = F.lower_bound(x)
-        if lo is not None and lo >= 1:
-            pos = True
-    if not pos:
-        C = Canon(P, g)
-        for b in g.order:
-            for i in b.insts:
-                if i.op == 'store' and const_int(g, i.ops[0]) is not None and const_int(g, i.ops[0]) >= 8 and const_int(g, i.ops[0]) % 8 == 0:
-                    root, steps = access_path(P, g, i.ops[1])
-                    fl = fields_in_path(steps)
-                    if fl and fl[-1] == ('ec_args', 'w'):
-                        Fb = Facts(P, g, b)
-                        addr = '*' + C.addr(i.ops[1])
-                        if any((p in ('sle',) and a == addr and b_ == '0') or (p == 'slt' and a == addr and b_ == '1') for p, a, b_ in Fb.facts):
-                            # every store to desc->w takes a load of that location placed after the normalisation
-                            idom = dominators(g)
-                            branch = [s for s, d in dominating_edges(g, b)][-1] if dominating_edges(g, b) else None
-                            ok_all = True
-                            for s in wstores:
-                                d = g.defs.get(strip_int_casts(g, s.ops[0]))
-                                if d is None or d.op != 'load' or ('*' + C.addr(d.ops[0])) != addr or d.bb is b or \
-                                   branch is None or not dominates(idom, branch, d.bb) or b in reachable_from(d.bb):
-                                    ok_all = False
-                            pos = ok_all
+    from ..paths import enumerate_paths
+    C = Canon(P, g)
+    paths = [p for p in enumerate_paths(P, g) if p.ret != 'null']
+    if not paths:
+        raise AnalysisBroken('isa_l_common_init has no path returning a descriptor')
     inst = 'isa_l init: word size is a positive multiple of 8 before it is used'
-    if const_w or (mult8 and pos):
-        r.ok(inst, loc=site.loc, func=g.name, facts={'multiple_of_8_guard': mult8, 'positive': pos, 'constant': const_w})
-    else:
-        why = []
+    problems, seen_store = [], 0
+    for p in paths:
+        vals = []
+        for e in p.events:
+            if e.op == 'store':
+                root, steps = access_path(P, g, e.ops[1])
+                fl = fields_in_path(steps)
+                if fl and fl[-1] == ('isa_l_descriptor', 'w'):
+                    vals.append(C.val(strip_int_casts(g, e.ops[0]), p.env))
+        if not vals:
+            problems.append('a successful path leaves the descriptor word size unset'); continue
+        seen_store += 1
+        V = vals[-1]
+        if INT.match(V):
+            if int(V) < 8 or int(V) % 8:
+                problems.append(f'constant word size {V}')
+            continue
+        tr = [(a, b_, c) for a, b_, c, _, _ in p.truths()]
+        mult8 = any(pr == 'eq' and {a, b_} in ({f'({V} srem 8)', '0'}, {f'({V} urem 8)', '0'}, {f'({V} and 7)', '0'}, {f'(7 and {V})', '0'}) for pr, a, b_ in tr)
+        lo = None
+        for pr, a, b_ in tr:
+            cand = None
+            if a == V and INT.match(b_):
+                cand = {'sgt': int(b_) + 1, 'sge': int(b_), 'eq': int(b_)}.get(pr)
+            elif b_ == V and INT.match(a):
+                cand = {'slt': int(a) + 1, 'sle': int(a), 'eq': int(a)}.get(pr)
+            if cand is not None:
+                lo = cand if lo is None else max(lo, cand)
         if not mult8:
-            why.append('no dominating guard w % 8 == 0')
-        if not pos:
-            why.append('w <= 0 is neither refused nor replaced by a default before use')
+            problems.append('no guard w % 8 == 0 on a path that keeps the caller value')
+        if lo is None or lo < 1:
+            problems.append('w <= 0 is neither refused nor replaced by a default before use')
+    if not seen_store:
+        raise AnalysisBroken('anchor vanished: isa_l_common_init does not store the descriptor word size')
+    if not problems:
+        r.ok(inst, loc=site.loc, func=g.name, facts={'successful_paths': len(paths)})
+    else:
+        why = sorted(set(problems))
         r.fail(inst, func=g.name, sig='isa-l word size unchecked: ' + '; '.join(why), loc=site.loc,
                msg='a caller-supplied w reaches the ISA-L descriptor and the size arithmetic (w/8 may be 0 or disagree with the element size): ' + '; '.join(why))
 
@@ -356,6 +349,9 @@ def divisor_ok(P, f, v, depth=0):
     if d.op == 'shl':
         a, wa = divisor_ok(P, f, d.ops[0], depth + 1)
         return a, wa + '<<'
+    if d.op == 'select':
+        res = [divisor_ok(P, f, x, depth + 1) for x in d.ops[1:]]
+        return all(a for a, _ in res), '|'.join(w for _, w in res)
     return False, d.op
 
 def rule_divisors(ctx, P, r):
